@@ -62,6 +62,10 @@ def gen_worker(qual):
                 d['trivial'] = True
             else:
                 d['smt2'] = backend.to_smt2(ob.formula())
+                if ob.has_quantified_assumptions():
+                    d['smt2_light'] = backend.to_smt2(ob.formula(light=True))
+                if len(ob.pc) > 12:
+                    d['smt2_coi'] = backend.to_smt2(ob.formula_coi())
             out['obligations'].append(d)
         if rep.status == 'generated':
             ex2 = Executor()
@@ -173,7 +177,10 @@ def main(argv=None):
         for ob in g['obligations']:
             if 'smt2' in ob:
                 to = str_timeout_ms if backend.uses_strings(ob['smt2']) else timeout_ms
-                jobs.append((ob['id'] + '#' + str(len(jobs)), ob['smt2'], to, None))
+                payload = (ob['smt2_light'], ob['smt2']) if 'smt2_light' in ob else ob['smt2']
+                if 'smt2_coi' in ob:
+                    payload = (ob['smt2_coi'], ob.get('smt2_light'), ob['smt2'])
+                jobs.append((ob['id'] + '#' + str(len(jobs)), payload, to, None))
                 ob['_job'] = jobs[-1][0]
     canary_jobs = []
     for g in gens:
